@@ -19,6 +19,7 @@ import (
 	"github.com/alibaba/sentinel-golang/core/hotspot/cache"
 
 	"vh/internal/emit"
+	"vh/internal/rng"
 	"vh/internal/vclock"
 )
 
@@ -154,6 +155,81 @@ type Case struct {
 	Adv   bool     `json:"advance_on_sleep"`
 	Rules [][]Rule `json:"rules"` // per resource
 	Ops   []Op     `json:"ops"`
+	// Reuse: the caller owns ONE argument slice and ONE attachment map for the whole case, re-fills
+	// them for every request and overwrites them as soon as Entry has returned (legal: the API
+	// promises to keep its own copy). Invisible to the model: same decisions, same counters.
+	Reuse bool `json:"caller_reuses_containers,omitempty"`
+	// Reload: a rule reload in which every rule of the case is unchanged is started before op At,
+	// and the next N ops run while it is half done (see Reload). Invisible to the model.
+	Reload *Reload `json:"reload,omitempty"`
+}
+
+// Reload describes a reload of the rules of resource Res in which all rules of the case stay as they
+// are and one rule with a user-defined control behaviour (ProbeBehavior) is added at position Pos of
+// the resource's list. The controller generator registered for that behaviour runs ops At..At+N-1 of
+// the case - i.e. while the rule manager is in the middle of rebuilding the controller lists - and
+// then either declines the rule (returns nil: the rule is ignored, the load succeeds) or, with Fail,
+// panics (the load reports an error and must leave the live rules as they were). PerRes: the reload
+// is hotspot.LoadRulesOfResource, else the whole-set hotspot.LoadRules.
+type Reload struct {
+	At     int  `json:"before_op"`
+	N      int  `json:"ops_inside"`
+	Res    int  `json:"res"`
+	Pos    int  `json:"probe_rule_position"`
+	PerRes bool `json:"per_resource"`
+	Fail   bool `json:"generator_panics"`
+}
+
+// ProbeBehavior is the user-defined control behaviour of the probe rule.
+const ProbeBehavior = hotspot.ControlBehavior(7)
+
+var probeHook func()
+
+func init() {
+	err := hotspot.SetTrafficShapingGenerator(ProbeBehavior, func(r *hotspot.Rule, _ *hotspot.ParamsMetric) hotspot.TrafficShapingController {
+		if h := probeHook; h != nil {
+			h()
+		}
+		return nil
+	})
+	if err != nil {
+		panic(err)
+	}
+}
+
+// Issues found by the last Run that are not decisions: what a reload did to the live controller
+// lists, panics of the code under test. The harness reports them as monitor failures.
+type Issue struct{ Sig, Detail string }
+
+var LastIssues []Issue
+
+func issue(sig, format string, a ...interface{}) {
+	LastIssues = append(LastIssues, Issue{sig, fmt.Sprintf(format, a...)})
+}
+
+// Decorate adds the driving modes that the model cannot see (caller-owned containers, a reload in
+// progress) to a generated case; r must be a stream of its own (the case itself stays as generated).
+func Decorate(r *rng.R, c *Case) {
+	if len(c.Ops) == 0 || len(c.Rules) == 0 {
+		return
+	}
+	c.Reuse = r.Chance(1, 3)
+	if r.Chance(1, 3) {
+		rl := &Reload{Res: r.Intn(len(c.Rules)), PerRes: r.Bool(), Fail: r.Chance(1, 3)}
+		// prefer a resource guarded by several rules: a rebuilt list can then be out of step
+		for ri := range c.Rules {
+			if len(c.Rules[ri]) > len(c.Rules[rl.Res]) {
+				rl.Res = ri
+			}
+		}
+		rl.Pos = r.Intn(len(c.Rules[rl.Res]) + 1)
+		rl.At = r.Intn(len(c.Ops) + 1)
+		rl.N = int(r.PickI(0, 1, 2, 3, 5))
+		if rl.At+rl.N > len(c.Ops) {
+			rl.N = len(c.Ops) - rl.At
+		}
+		c.Reload = rl
+	}
 }
 
 type Obs struct {
@@ -247,6 +323,49 @@ func Options(q Req) []sentinel.EntryOption {
 	return opts
 }
 
+// caller keeps one argument slice and one attachment map and re-uses them for every request
+type caller struct {
+	buf []interface{}
+	m   map[interface{}]interface{}
+}
+
+func newCaller() *caller {
+	return &caller{buf: make([]interface{}, 0, 16), m: map[interface{}]interface{}{}}
+}
+
+func (cl *caller) options(q Req) []sentinel.EntryOption {
+	var opts []sentinel.EntryOption
+	cl.buf = cl.buf[:0]
+	for k := range cl.m {
+		delete(cl.m, k)
+	}
+	if len(q.Args) > 0 {
+		for _, a := range q.Args {
+			cl.buf = append(cl.buf, goValue(a))
+		}
+		opts = append(opts, sentinel.WithArgs(cl.buf...)) // the variadic call hands over the caller's slice itself
+	}
+	if len(q.Atts) > 0 {
+		for _, kv := range q.Atts {
+			cl.m[keyString(kv[0])] = goValue(kv[1])
+		}
+		opts = append(opts, sentinel.WithAttachments(cl.m))
+	}
+	opts = append(opts, sentinel.WithBatchCount(q.Batch))
+	return opts
+}
+
+// scribble: Entry has returned; the caller overwrites what it passed with other (valid) values
+func (cl *caller) scribble(q Req) {
+	full := cl.buf[:cap(cl.buf)]
+	for i := range full {
+		full[i] = goValue((i+len(q.Args))%PoolSize + 1)
+	}
+	for i, ks := range KeyStrings { // every key the rules may look at, bound to some other value
+		cl.m[ks] = goValue((i+len(q.Atts)+1)%PoolSize + 1)
+	}
+}
+
 func dump(c cache.ConcurrentCounterCache) []Cell {
 	if c == nil {
 		return nil
@@ -274,12 +393,16 @@ func dump(c cache.ConcurrentCounterCache) []Cell {
 
 // Run executes the case on the implementation through the public API.
 // corrupt lists the op indices of entries still live at the end whose context no longer holds
-// the arguments the entry was created with.
+// the arguments / attachments the entry was created with. LastIssues is reset and filled.
 func Run(prefix string, c Case, clk *vclock.Clock) (obs []Obs, finals [][]Final, corrupt []int) {
+	LastIssues = nil
 	var rules []*hotspot.Rule
+	perRes := make([][]*hotspot.Rule, len(c.Rules))
 	for ri, rs := range c.Rules {
 		for j, r := range rs {
-			rules = append(rules, GoRule(r, ResName(prefix, c.ID, ri), j))
+			g := GoRule(r, ResName(prefix, c.ID, ri), j)
+			rules = append(rules, g)
+			perRes[ri] = append(perRes[ri], g)
 		}
 	}
 	if _, err := hotspot.LoadRules(rules); err != nil {
@@ -293,15 +416,37 @@ func Run(prefix string, c Case, clk *vclock.Clock) (obs []Obs, finals [][]Final,
 	clk.AdvanceOnSleep = c.Adv
 	clk.TakeSleeps()
 	entries := make([]*base.SentinelEntry, len(c.Ops))
-	for i, o := range c.Ops {
+	obs = make([]Obs, len(c.Ops))
+	var cl *caller
+	if c.Reuse {
+		cl = newCaller()
+	}
+	// one operation; a panic of the code under test is an observation, not a crash of the harness
+	exec := func(i int) {
+		o := c.Ops[i]
 		Beat()
 		at := int64(clk.CurrentTimeMillis())
+		obs[i] = Obs{Kind: "none", AtMs: at}
+		defer func() {
+			if p := recover(); p != nil {
+				obs[i] = Obs{Kind: "panic", AtMs: at, Panicky: true}
+				issue("entry-or-exit-panics", "op %d (%s) panicked: %v", i, o.Kind, p)
+			}
+		}()
 		switch o.Kind {
 		case "tick":
 			clk.AddMs(uint64(o.Ms))
-			obs = append(obs, Obs{Kind: "none", AtMs: at})
 		case "enter":
-			e, b := sentinel.Entry(ResName(prefix, c.ID, o.Res), Options(*o.Req)...)
+			var opts []sentinel.EntryOption
+			if cl != nil {
+				opts = cl.options(*o.Req)
+			} else {
+				opts = Options(*o.Req)
+			}
+			e, b := sentinel.Entry(ResName(prefix, c.ID, o.Res), opts...)
+			if cl != nil {
+				cl.scribble(*o.Req)
+			}
 			var sl []int64
 			for _, d := range clk.TakeSleeps() {
 				sl = append(sl, int64(d/time.Nanosecond))
@@ -316,18 +461,27 @@ func Run(prefix string, c Case, clk *vclock.Clock) (obs []Obs, finals [][]Final,
 				if v, ok := b.TriggeredValue().(int64); ok {
 					ob.HasTV, ob.TV = true, v
 				}
-				obs = append(obs, ob)
+				obs[i] = ob
 			} else {
 				entries[i] = e
-				obs = append(obs, Obs{Kind: "pass", Sleeps: sl, AtMs: at})
+				obs[i] = Obs{Kind: "pass", Sleeps: sl, AtMs: at}
 			}
 		case "exit":
 			if o.K >= 0 && o.K < len(entries) && entries[o.K] != nil {
 				entries[o.K].Exit()
 				entries[o.K] = nil
 			}
-			obs = append(obs, Obs{Kind: "none", AtMs: at})
 		}
+	}
+	next, reloaded := 0, c.Reload == nil
+	for next < len(c.Ops) || !reloaded {
+		if !reloaded && next >= c.Reload.At {
+			reloaded = true
+			next = runReload(prefix, c, rules, perRes, exec)
+			continue
+		}
+		exec(next)
+		next++
 	}
 	for ri := range c.Rules {
 		var fs []Final
@@ -352,18 +506,149 @@ func Run(prefix string, c Case, clk *vclock.Clock) (obs []Obs, finals [][]Final,
 				same = got[x] == goValue(want[x])
 			}
 		}
+		// the attachments the entry was created with (a Go map: the last binding of a key wins)
+		wantAtt := map[string]int{}
+		for _, kv := range c.Ops[i].Req.Atts {
+			wantAtt[keyString(kv[0])] = kv[1]
+		}
+		gotAtt := e.Context().Input.Attachments
+		if len(gotAtt) != len(wantAtt) {
+			same = false
+		}
+		for ks, id := range wantAtt {
+			v, ok := gotAtt[ks]
+			if !ok {
+				same = false
+			} else if id >= NaNBase {
+				f, isF := v.(float64)
+				same = same && isF && f != f
+			} else {
+				same = same && v == goValue(id)
+			}
+		}
 		if !same {
 			corrupt = append(corrupt, i)
 		}
 	}
 	for _, e := range entries {
 		if e != nil {
-			e.Exit()
+			func() {
+				defer func() {
+					if p := recover(); p != nil {
+						issue("entry-or-exit-panics", "final Exit panicked: %v", p)
+					}
+				}()
+				e.Exit()
+			}()
 		}
 	}
 	clk.TakeSleeps()
 	clk.AdvanceOnSleep = true
+	probeHook = nil
 	return
+}
+
+func sameCtrls(a, b []hotspot.TrafficShapingController) bool {
+	if len(a) != len(b) {
+		return false
+	}
+	for i := range a {
+		if a[i] != b[i] {
+			return false
+		}
+	}
+	return true
+}
+
+func ctrlIDs(a []hotspot.TrafficShapingController) []string {
+	var ids []string
+	for _, tc := range a {
+		if tc == nil || tc.BoundRule() == nil {
+			ids = append(ids, "?")
+		} else {
+			ids = append(ids, tc.BoundRule().ID)
+		}
+	}
+	return ids
+}
+
+// runReload performs the reload of c.Reload with ops At..At+N-1 executed from inside the controller
+// generator of the probe rule, and returns the index of the next op to execute. Every rule of the
+// case is handed over unchanged, so - whatever the outcome of the load - the controllers in force
+// for every resource of the case must be the very same objects in the same order while the reload
+// is in progress and after it.
+func runReload(prefix string, c Case, rules []*hotspot.Rule, perRes [][]*hotspot.Rule, exec func(int)) int {
+	rl := c.Reload
+	resName := ResName(prefix, c.ID, rl.Res)
+	before := make([][]hotspot.TrafficShapingController, len(c.Rules))
+	for ri := range c.Rules {
+		before[ri] = append([]hotspot.TrafficShapingController(nil), hotspot.VerifTrafficControllersFor(ResName(prefix, c.ID, ri))...)
+	}
+	check := func(when string) {
+		for ri := range c.Rules {
+			now := hotspot.VerifTrafficControllersFor(ResName(prefix, c.ID, ri))
+			if !sameCtrls(before[ri], now) {
+				issue("controller-list-disturbed-by-reload-of-unchanged-rules",
+					"%s the reload (%+v): resource %d is guarded by the controllers of rules %v, before the reload %v",
+					when, *rl, ri, ctrlIDs(now), ctrlIDs(before[ri]))
+			}
+		}
+	}
+	probe := &hotspot.Rule{ID: "probe", Resource: resName, MetricType: hotspot.QPS, ControlBehavior: ProbeBehavior,
+		ParamIndex: 0, Threshold: 1, DurationInSec: 1}
+	with := func(list []*hotspot.Rule, pos int) []*hotspot.Rule {
+		out := append([]*hotspot.Rule(nil), list[:pos]...)
+		out = append(out, probe)
+		return append(out, list[pos:]...)
+	}
+	done := 0
+	called := false
+	probeHook = func() {
+		if called {
+			return
+		}
+		called = true
+		check("during")
+		for k := 0; k < rl.N; k++ {
+			exec(rl.At + k)
+			done++
+		}
+		check("during")
+		if rl.Fail {
+			panic("probe generator fails")
+		}
+	}
+	var err error
+	func() {
+		defer func() {
+			if p := recover(); p != nil {
+				issue("load-rules-panics", "the reload (%+v) panicked: %v", *rl, p)
+			}
+		}()
+		if rl.PerRes {
+			_, err = hotspot.LoadRulesOfResource(resName, with(perRes[rl.Res], rl.Pos))
+		} else {
+			// position of the probe in the whole list: in front of the Pos-th rule of the resource
+			pos := 0
+			for ri := 0; ri < rl.Res; ri++ {
+				pos += len(perRes[ri])
+			}
+			_, err = hotspot.LoadRules(with(rules, pos+rl.Pos))
+		}
+	}()
+	probeHook = nil
+	if called && rl.Fail && err == nil {
+		issue("failed-load-not-reported", "the generator panicked during the reload (%+v) but the load returned no error", *rl)
+	}
+	if called && !rl.Fail && err != nil {
+		issue("load-of-valid-rules-fails", "the reload (%+v) returned %v", *rl, err)
+	}
+	check("after")
+	// ops the generator did not get to (it was not called, or a panic cut it short) run now
+	for k := done; k < rl.N; k++ {
+		exec(rl.At + k)
+	}
+	return rl.At + rl.N
 }
 
 // ---- Coq printer ------------------------------------------------------------------------
